@@ -384,5 +384,50 @@ def wfList : List Filter → Bool
   | f :: fs => wf f && wfList fs
 end
 
+/-! ## the classes of strings the property says are rejected, as predicates on the string alone
+(parentheses never stand for themselves in a filter string, so every `(` `)` octet is structure) -/
+
+/-- parenthesis depth starting at `d`: no `)` without an open `(`, none left open at the end -/
+def balanced : Nat → Bytes → Bool
+  | d, [] => d == 0
+  | d, c :: r =>
+    if c = 0x28 then balanced (d + 1) r
+    else if c = 0x29 then
+      match d with
+      | 0 => false
+      | d' + 1 => balanced d' r
+    else balanced d r
+
+/-- every backslash is followed by two hex digits -/
+def escapesOk : Bytes → Bool
+  | [] => true
+  | c :: r =>
+    if c = 0x5C then
+      match r with
+      | h1 :: h2 :: r' => (hexVal h1).isSome && (hexVal h2).isSome && escapesOk r'
+      | _ => false
+    else escapesOk r
+
+/-- no two adjacent asterisks (`lastStar`: the previous octet was an asterisk) -/
+def noAdjacentStars : Bool → Bytes → Bool
+  | _, [] => true
+  | lastStar, c :: r => !(lastStar && c == 0x2A) && noAdjacentStars (c == 0x2A) r
+
+/-- what may follow `(`: `&` `|` `!`, or the first octet of an item (letter, digit, `:`);
+in particular not an operator: the attribute description is not empty -/
+def okAfterParen (c : UInt8) : Bool := c == 0x26 || c == 0x7C || c == 0x21 || c == 0x3A || ALPHA c || DIGIT c
+
+/-- every `(` is followed by something that can start a `filtercomp` -/
+def parenFollowOk : Bool → Bytes → Bool
+  | afterParen, [] => !afterParen
+  | afterParen, c :: r => (!afterParen || okAfterParen c) && parenFollowOk (c == 0x28) r
+
+/-- every `(` is the first octet or follows one of `(` `&` `|` `!` `)`: none inside a value or an
+attribute description (`prevOk`: a parenthesis may come next) -/
+def parenPrevOk : Bool → Bytes → Bool
+  | _, [] => true
+  | prevOk, c :: r =>
+    (c != 0x28 || prevOk) && parenPrevOk (c == 0x28 || c == 0x26 || c == 0x7C || c == 0x21 || c == 0x29) r
+
 end Filter
 end Ldap3V.Spec
